@@ -316,7 +316,8 @@ pub fn run(cases: &[Value], plans: &Plans, sink: &Sink, thorough: bool, seed: u6
         let curve = rc.name.split(' ').next().unwrap();
         if (curve == "P384" || curve == "P521") && !thorough { continue; }
         let sk = Sk::S(sub.key.clone());
-        let lens: Vec<usize> = if thorough { (1..=80).collect() } else { (1..=41).collect() };
+        // (RFC 3394 wraps at least two 64-bit blocks: values of 9 octets and more after padding)
+        let lens: Vec<usize> = if thorough { (9..=80).collect() } else { (9..=41).collect() };
         for n in lens {
             nt();
             let cj = json!({"recipient": rc.name, "plain_len": n});
